@@ -59,7 +59,9 @@ def run(chk):
         fails = O.guarded(O.c03, case)
         chk.evaluations += 1
         chk.nontrivial += 1
-        if fails:
+        if fails and fails[0].startswith('FLOAT-RESOLUTION'):      # the mechanism of the recorded finding F8, verified by the oracle on this very run
+            found += chk.violation('guard-at-float-resolution', fails[0], {'kind': 'solve', 'witness': 'float-resolution', 'case': case})
+        elif fails:
             found += chk.violation('stop-rule', fails[0], {'kind': 'solve', 'case': case})
             if found > 2:
                 break
@@ -81,6 +83,16 @@ def run(chk):
     # the recorded finding F8: an eps below the binary64 resolution of the curve parameter cannot be reached; the search then ends
     # through the "x is outside of interval" guard of CalculateNextPointCoordinate - earlier than the property allows
     found += float_resolution(chk)
+    # the same mechanism at a realistic accuracy: N = 5, eps = 1e-6 (first met by the random stream of the thorough tier with seed 4)
+    import json, os
+    n5 = json.load(open(os.path.join(core.ROOT, 'corpus', 'C03-resolution-n5.json')))['case']
+    fails = O.guarded(O.c03, n5)
+    chk.evaluations += 1
+    chk.cov['float_resolution_n5'] = (fails or ['holds'])[0][:160]
+    if fails and fails[0].startswith('FLOAT-RESOLUTION'):
+        found += chk.violation('guard-at-float-resolution', fails[0], {'kind': 'solve', 'witness': 'float-resolution', 'case': n5})
+    elif fails:
+        found += chk.violation('stop-rule', fails[0], {'kind': 'solve', 'case': n5})
     # non-finite objective values must not hang Solve (run in a separate process with a timeout)
     code = ("import sys; sys.path.insert(0, '/verif')\nfrom vlib import harness as H\nimport math\n"
             "from iOpt.problem import Problem\nimport numpy as np\n"
